@@ -299,6 +299,10 @@ def run_shard(ctx):
         full_check(ctx, cls, n, scripts, opts, spec, 'solve_t', 1, 0.5, (None, None), case, repeat)
     parser_models(ctx)
     integer_models(ctx)
+    if ctx.shard == 0:
+        # tracer next to the alias extension: a trace asked for by alias is a trace of that variable (twin traced by the variables' own names)
+        from . import c18
+        c18.traced_aliases(ctx, c18.canon_class(), ctx.rng('c17-alias'), every=True)
 
 
 def parser_models(ctx):
